@@ -19,6 +19,22 @@ M_DLIS = {'name': 'DlisModel', 'module': 'DlisModel.tla',
           'timeout': {'quick': 900, 'thorough': 7200}}
 
 
+M_DATA = {'name': 'DataSource', 'module': 'DataSource.tla',
+          'cfg': {'quick': 'MC_DataSource_quick.cfg', 'thorough': 'MC_DataSource_thorough.cfg'},
+          'must_cover': ['DataSource.Setup', 'DataSource.LoadChunk', 'DataSource.NextFrameData', 'DataSource.Finish']}
+M_FIDX = {'name': 'FrameIndex', 'module': 'FrameIndex.tla',
+          'cfg': {'quick': 'MC_FrameIndex_quick.cfg', 'thorough': 'MC_FrameIndex_thorough.cfg'},
+          'must_cover': ['FrameIndex.SetUser', 'FrameIndex.Write'], 'timeout': {'quick': 900, 'thorough': 7200}}
+
+
+# (no -coverage for this one: TLC's coverage bookkeeping explodes on the recursive grammar operators; the state graph has
+#  exactly three levels - Init, Assign, Write - so 3 x |Init| states is the vacuity check)
+M_ATTR = {'name': 'AttrEncoder', 'module': 'AttrEncoder.tla', 'cfg': {'quick': 'MC_AttrEncoder.cfg', 'thorough': 'MC_AttrEncoder.cfg'},
+          'must_cover': [], 'min_states': 252, 'kw': {'quick': {'coverage': False}, 'thorough': {'coverage': False}}}
+M_PRIM = {'name': 'PrimModel', 'module': 'PrimModel.tla', 'cfg': {'quick': 'PrimModel_quick.cfg', 'thorough': 'PrimModel_thorough.cfg'},
+          'must_cover': ['PrimModel.NextCase']}
+
+
 def seg_drift(programs, traces, jobs):
     """Run the Segmenter model on the inputs of the recorded low-level writes; compare outcome, bytes, flushes."""
     cases = []
@@ -98,7 +114,7 @@ REGISTRY = {
             'rule': 'TLC: encoder/decoder round trip over boundary-complete domains; code: every generated (code, value) case is an encode event judged against Enc of the specification; '
                     'non-trivial = a program with encode events; distinct by program digest (each program holds up to 400 distinct cases; counters.enc is the number of judged calls)',
             'assumptions': COMMON_ASSUME},
-    'C10': {'models': [M_SEG], 'drift': [seg_drift],
+    'C10': {'models': [M_SEG, M_DATA], 'drift': [seg_drift],
             'nontrivial': lambda c, p: c['flushes'] > 1 or c['cmp'] > 0,
             'rule': 'TLC: Segmenter model (DiskOnBoundary, DiskIsPrefix, ChunkInvisible, TotalIsSize); code: one specification written under several input/output chunk sizes '
                     'over pre-filled targets with the disk read at every flush; non-trivial = more than one flush observed or two files compared',
@@ -114,13 +130,13 @@ REGISTRY = {
             'nontrivial': lambda c, p: c['nofmt'] > 0,
             'rule': 'TLC: Segmenter (lossless bodies); code: payload sequences (bytes/bytearray/str, boundary lengths) over 1..3 NO-FORMAT objects; non-trivial = a no-format record decoded',
             'assumptions': COMMON_ASSUME},
-    'C03': {'models': [], 'nontrivial': lambda c, p: c['fdata'] > 0 and c['frames'] > 0,
+    'C03': {'models': [M_DATA], 'nontrivial': lambda c, p: c['fdata'] > 0 and c['frames'] > 0,
             'rule': 'code: frames over dtype x byte order x layout x width x rows x chunk x record length x cast; TLC slices every FDATA record by the decoded channel descriptors and compares each slot with the big-endian image of the input; non-trivial = FDATA records decoded for an expected frame',
             'assumptions': COMMON_ASSUME},
-    'C04': {'models': [], 'nontrivial': lambda c, p: c['eflrs'] > 0,
+    'C04': {'models': [M_ATTR, M_PRIM], 'nontrivial': lambda c, p: c['eflrs'] > 0,
             'rule': 'code: all object classes x attribute subset patterns x multiplicities x named/unnamed sets x 1..3 objects per set; TLC parses every EFLR body with the component grammar; non-trivial = EFLRs decoded',
             'assumptions': COMMON_ASSUME},
-    'C05': {'models': [], 'nontrivial': lambda c, p: c['objs'] > 0,
+    'C05': {'models': [M_ATTR], 'nontrivial': lambda c, p: c['objs'] > 0,
             'rule': 'code: objects of all classes with values per attribute kind and assignment route; TLC compares every assigned attribute of Canon with the decoded object; non-trivial = Canon objects compared',
             'assumptions': COMMON_ASSUME},
     'C07': {'models': [M_DLIS], 'extra_gen': [dlismodel_programs], 'drift': [dlismodel_drift], 'nontrivial': lambda c, p: c['objs'] > 0 and c['eflrs'] > 0,
@@ -132,16 +148,16 @@ REGISTRY = {
     'C09': {'models': [M_DLIS], 'extra_gen': [dlismodel_programs], 'drift': [dlismodel_drift], 'nontrivial': lambda c, p: c['eflrs'] > 0,
             'rule': 'code: header variants, origin first/middle/last, classes in random creation order, 1..3 logical files; TLC checks the order clauses on the decoded record sequence',
             'assumptions': COMMON_ASSUME},
-    'C11': {'models': [], 'nontrivial': lambda c, p: c['cmp'] > 0,
+    'C11': {'models': [M_DATA], 'nontrivial': lambda c, p: c['cmp'] > 0,
             'rule': 'code: the same data through inline / dict / structured array / HDF5 / pre-sliced arrays with windows and chunk sizes, five files per scenario; TLC compares files whose Canon and expected rows are equal; non-trivial = at least one pair of files compared',
             'assumptions': COMMON_ASSUME},
-    'C13': {'models': [], 'nontrivial': lambda c, p: c['idx'] > 0,
+    'C13': {'models': [M_FIDX], 'nontrivial': lambda c, p: c['idx'] > 0,
             'rule': 'code: index sequences x dtypes x indexed/not x user-supplied values x windows, and write-write histories; TLC recomputes min/max/differences in integers from the expected rows; non-trivial = an index channel with integer values was judged',
             'assumptions': COMMON_ASSUME},
     'C18': {'models': [M_DLIS], 'extra_gen': [dlismodel_programs], 'drift': [dlismodel_drift], 'nontrivial': lambda c, p: c['objs'] > 0 and c['files'] > 0,
             'rule': 'code: 1..3 logical files x set-name assignment (distinct/default/partial) x interleavings x inline or write-time data; TLC compares per-logical-file inventories',
             'assumptions': COMMON_ASSUME},
-    'C19': {'models': [], 'nontrivial': lambda c, p: c['files'] + c['raised'] > 0,
+    'C19': {'models': [M_DATA], 'nontrivial': lambda c, p: c['files'] + c['raised'] > 0,
             'rule': 'code: all source kinds, layouts incl. views into larger buffers and read-only arrays, successful and failing writes; TLC compares the caller buffers (whole base buffer) before and after',
             'assumptions': COMMON_ASSUME},
     'C12': {'models': [], 'nontrivial': lambda c, p: c['files'] + c['raised'] > 0,
